@@ -4,7 +4,7 @@ import os, z3, subprocess
 import stubs, procenv, build
 from irsym import is_sym
 
-TUS = ['functions', 'instance', 'value', 'interp', 'script', 'dbginterp', 'dbgscript', 'strenc', 'pubkey', 'hash', 'sha256', 'ripemd160', 'sha1', 'uint256', 'tx', 'script_error', 'base58', 'bech32']
+TUS = ['functions', 'instance', 'value', 'interp', 'script', 'dbginterp', 'dbgscript', 'strenc', 'pubkey', 'hash', 'sha256', 'ripemd160', 'sha1', 'uint256', 'tx', 'script_error', 'base58', 'bech32', 'arith', 'merkle']
 SHIMS = ['maindeb']
 
 def setup(E, real_hex=True):
